@@ -26,6 +26,8 @@ def build(repo, build_dir, features=''):
     t = open(os.path.join(ROOT, 'replay', 'Cargo.toml.in')).read().replace('@VERIF@', ROOT).replace('@REPO@', repo)
     if features:
         t = t.replace('default-features = false', 'default-features = false, features = [%s]' % ', '.join('"%s"' % f for f in features.split(',')))
+        # unoptimized library code: a write through a shared reference (UB) must show up as a write, not be "optimized away"
+        t += '\n[profile.dev.package.rustfft]\nopt-level = 0\n'
     with open(os.path.join(d, 'Cargo.toml'), 'w') as f:
         f.write(t)
     lock = os.path.join(repo, 'Cargo.lock')
